@@ -229,6 +229,9 @@ class MemberList(Obj):
     def length(self, ex, st, node):
         return [('ok', st, self.n)]
 
+    def enumerate(self, ex, st, node):
+        return [('ok', st, MemberEnum(ex, self))]
+
     def getitem(self, ex, st, idx, node):
         from pyvc.core import as_int
         i = as_int(ex, st, idx)
@@ -242,6 +245,38 @@ class MemberList(Obj):
         st = st.fork()
         self.set(st, 'arr', z3.Store(self.get(st, 'arr'), i, box(ex, v)))
         return [('ok', st, None)]
+
+
+class MemberEnum(Obj):
+    """enumerate(members): yields (i, members[i]) -- the element as it is when the iterator reaches it"""
+
+    def __init__(self, ex, members):
+        super().__init__(ex, 'enumerate(members)')
+        self.m = members
+        self.key = f'#r{V.fresh_id()}'
+
+    def havoc(self, ex, st):
+        pass
+
+    def iter_start(self, ex, st, node):
+        st = st.fork()
+        st.ghost[self.key] = z3.IntVal(0)
+        return [('ok', st, self)]
+
+    def havoc_index(self, st):
+        i = fresh('eidx', z3.IntSort())
+        st.ghost[self.key] = i
+        st.assume(i >= 0, i <= self.m.n)
+
+    def idx(self, st):
+        return st.ghost[self.key]
+
+    def pull(self, ex, st, node):
+        i = st.ghost[self.key]
+        s1 = st.fork().assume(i >= self.m.n)
+        s2 = st.fork().assume(i < self.m.n)
+        s2.ghost[self.key] = i + 1
+        return [x for x in (('stop', s1, None), ('item', s2, PyTuple([i, z3.Select(self.m.get(s2, 'arr'), i)]))) if ex.feasible(x[1])]
 
 
 remote_of = z3.Function('RemoteException', Val, Val)
